@@ -7,7 +7,7 @@ FAMILY = "incr"
 
 MANIFEST = {
  "level": 'other',
- "text": "Proved about the Gallina model of incremental.rs (Model/Incremental.v: read-op stack, write stack, the parse stack driven through push/pop2_and_cons, a Cursor<Vec<u8>> output with overwrite/zero-fill semantics, undo records; TreeCache's path search is an oracle that is a parameter of every add): (C19_undo) in every state reachable by add/restore calls with arbitrary oracles, restoring any undo state that is still live - not only the latest - gives back exactly the state in which it was taken (bytes, size and all later behaviour), the output is append-only under add and restore truncates it; (C19_decode) if every path returned by the oracle denotes, in the decoder's stack at that point, the tree of the node being written, then when add reports completion the bytes are an encoding (relation enc of C17) of the tree assembled from the retained additions, hence decode to it in the grammar, in both decoders and in the length probe; (C19_salt) add/restore use the oracle's answers only: two oracles that answer alike give the same bytes. NOT proved: anything about tree_cache.rs (path search, parent lists, salted hashing): the premise of C19_decode is checked on every run instead - and it FAILS on the unchanged code (finding F10: the sentinel's parent links are moved to the root of the next addition; this is wrong when an added tree holds the sentinel more than once, when the addition is undone, and when a NodePtr holding the sentinel is added or occurs more than once). Model vs implementation after every call of add/undo histories, the model driven with the implementation's own paths; implementation search for undo bytes, append-only output, the decoded tree (both decoders) against the tree assembled in Python, and salt independence (three serializers per history in one process, two processes).",
+ "text": "Proved about the Gallina model of incremental.rs (Model/Incremental.v: read-op stack, write stack, the parse stack driven through push/pop2_and_cons, a Cursor<Vec<u8>> output with overwrite/zero-fill semantics, undo records; TreeCache's path search is an oracle that is a parameter of every add): (C19_undo) in every state reachable by add/restore calls with arbitrary oracles, restoring any undo state that is still live - not only the latest - gives back exactly the state in which it was taken (bytes, size and all later behaviour), the output is append-only under add and restore truncates it; (C19_decode) if every path returned by the oracle denotes, in the decoder's stack at that point, the tree of the node being written, then when add reports completion the bytes are an encoding (relation enc of C17) of the tree assembled from the retained additions, hence decode to it in the grammar, in both decoders and in the length probe; (C19_salt) add/restore use the oracle's answers only: two oracles that answer alike give the same bytes; (C19_add_total) in reachable states add passes no panic site of the model and never runs out of fuel, for any oracle, given atoms and paths below 2^34 bytes. NOT proved: anything about tree_cache.rs (path search, parent lists, salted hashing): the premise of C19_decode is checked on every run instead - and it FAILS on the unchanged code (finding F10: the sentinel's parent links are moved to the root of the next addition; this is wrong when an added tree holds the sentinel more than once, when the addition is undone, and when a NodePtr holding the sentinel is added or occurs more than once). Model vs implementation after every call of add/undo histories, the model driven with the implementation's own paths; implementation search for undo bytes, append-only output, the decoded tree (both decoders) against the tree assembled in Python, and salt independence (three serializers per history in one process, two processes).",
  "note": vlib.NOTE_COMMON + " Level 'other': the path search of tree_cache.rs is not modelled; its outputs are validated on every run.",
  "technique": 'Coq proof (state machine of incremental.rs with the path search as an oracle: undo = exact state restoration for every live undo state; completed output is an enc-encoding of the assembled tree when every emitted path is valid) + model/implementation run after every call with the implementation\'s own paths validated against the model stack + implementation search (undo bytes, decode = assembled tree, three salts per history)',
 }
@@ -145,7 +145,7 @@ def run(ctx):
                 "non-trivial = distinct history with at least one undo or at least two additions whose completed output holds a back-reference")
     ctx.explanation = ("Theorems (Props/C19.v): C19_undo (every live undo state restores the exact state it was taken in, for all reachable states and all "
                        "oracles), C19_append_only, C19_decode (valid oracle answers => completed bytes are an enc-encoding of the assembled tree => decode in both "
-                       "decoders), C19_salt (bytes are a function of trees, history and oracle answers). The path search of tree_cache.rs is not modelled: every "
+                       "decoders), C19_salt (bytes are a function of trees, history and oracle answers), C19_add_total (no panic site / fuel exhaustion reachable). The path search of tree_cache.rs is not modelled: every "
                        "emitted path is validated against the model's stack on every run. Implementation search: restore gives back the bytes held before the "
                        "undone add; output append-only; size = length; done flag = no sentinel position open; completed bytes decode (both decoders) to the tree "
                        "assembled in Python; three serializers (three salts / hasher states) per history in one process and a second process give identical "
@@ -160,7 +160,7 @@ def run(ctx):
     ctx.proofs()
     if not ctx.build():
         return
-    n = ctx.scale(2500, 60000)
+    n = ctx.scale(2500, 150000)
     hs = gi.fixed_histories() + [gi.history(r) for _ in range(n)]
     lines = [gi.line(h) for h in hs]
     o1 = vlib.run_impl("incr", lines)
@@ -193,7 +193,14 @@ def run(ctx):
             last = (a or "").split("|")[-1]
             if nu or (nadds >= 2 and "fe" in (last.split(":")[3] if last.count(":") >= 3 else "")):
                 ctx.nontrivial += 1
-    # model vs implementation, the model answering find_path from the implementation's bytes
+    # model vs implementation, the model answering find_path from the implementation's bytes;
+    # the misuse histories (restore of a dead undo state) take part in this comparison only
+    mis = gi.misuse_histories()
+    mo1 = vlib.run_impl("incr", [gi.line(h) for h in mis], shards=1)
+    hs = hs + mis
+    lines = lines + [gi.line(h) for h in mis]
+    o1 = o1 + mo1
+    feats = feats + [["misuse"] for _ in mis]
     lines2 = [gi.line(h, oracle_of(a)) for h, a in zip(hs, o1)]
     m = vlib.run_model("incr", lines2)
     dis = []
@@ -203,7 +210,7 @@ def run(ctx):
         ia = (a or "none").partition(" SALT-DIFF ")[0]
         if core != ia:
             dis.append((l2, mo, a))
-        for fl in flags[:1]:
+        for fl in ([] if h["kind"] == "misuse" else flags[:1]):
             kind = "invalid-path" if "path" in fl else "model-decode"
             ctx.histogram("violation", kind + ("/F10-trigger" if ft else ""))
             report(h, l, a, kind, "the path emitted at output position %s does not denote the node being written in the decoder's stack (premise of C19_decode)"
